@@ -38,7 +38,7 @@ BOOL_MASK_ONLY = {"median", "quantile", "apply", "cumsum", "cummin", "cummax", "
 NO_MASK = {"head", "tail", "nth", "groups", "nearby", "top_ema", "top_ema_timed", "nan:nansum", "nan:nanmax", "nan:nanmean", "factorize_1d", "factorize_2d"}
 KEY_DTYPES = ["i64", "f64", "M8ns", "bool", "str"]
 VAL_DTYPES = ["f64", "f64", "i64", "i32", "u8", "bool", "M8ns", "m8s", "M8us_tz"]
-KEY_CONTAINERS = ["ndarray", "ndarray_strided", "pd_series", "pd_series_indexed", "pd_series_arrow", "pd_index", "pd_categorical", "pl_series", "pa_array",
+KEY_CONTAINERS = ["ndarray", "ndarray_strided", "pd_series", "pd_series_indexed", "pd_series_arrow", "pd_index", "pd_index_arrow", "pd_categorical", "pl_series", "pa_array",
                   "pa_chunked", "pa_dictionary", "pa_from_numpy", "list"]
 VAL_CONTAINERS = ["ndarray", "ndarray_strided", "ndarray_readonly", "pd_series", "pd_series_indexed", "pd_series_arrow", "pd_series_arrow_chunked", "pd_index",
                   "pl_series", "pa_array", "pa_chunked", "pa_from_numpy", "frame", "list2", "dict2"]
@@ -143,6 +143,8 @@ def build_key(col, kd, cont, chunks, name, index):
             return pa.chunked_array(out, type=pa.string()), []
         if cont == "pd_series_arrow":
             return pd.Series(pd.arrays.ArrowExtensionArray(pa.chunked_array([arr])), name=name), []
+        if cont == "pd_index_arrow":
+            return pd.Index(pd.arrays.ArrowExtensionArray(pa.chunked_array([arr])), name=name), []
         if cont == "pl_series":
             return pl.Series(name or "", arr), []
         raise ValueError(cont)
